@@ -225,11 +225,14 @@ def run_case(desc, V):
 
     claims = []
     ka, kb, other = desc['ka'], desc['kb'], desc['other']
+    spy = _SpyDict(opdict.operator_dict)
+    opdict.operator_dict = spy
     try:
         call('sv', 'first', ka, kb)                        # first call: events allowed
     except ZeroDivisionError:
         return [Eq('first-call-raises', 1, 1)]
     n_entries = len(opdict)
+    first_keys = list(spy.looked_up)
     sequence = ['sv'] + rng.sample(KINDS[1:], 3 if desc.get('short') else 5) + ['sv']
     for i, kind in enumerate(sequence):
         if i % 2 == 1:
@@ -239,6 +242,7 @@ def run_case(desc, V):
                 pass
             n_entries = len(opdict)
         before = kapi.recorder_counts()
+        del spy.looked_up[:]
         try:
             call(kind, f'rep{i}', ka, kb)
         except ZeroDivisionError:
@@ -251,6 +255,18 @@ def run_case(desc, V):
                 continue
             raise
         after = kapi.recorder_counts()
+        # the cache key of the repeat equals the key of the first call -- decided by the solver when a key
+        # component is a term (a key that embeds coefficient values gives a satisfiable disequality)
+        if spy.looked_up and first_keys:
+            f0, r0 = _flat(first_keys[-1]), _flat(spy.looked_up[-1])
+            if len(f0) != len(r0):
+                claims.append(Fail(f'cache-key-shape[{i}:{kind}]', f'cache key {spy.looked_up[-1]!r} vs first {first_keys[-1]!r}', fkey=f'repeat|{op}|cache-key'))
+            else:
+                for j, (x0, x1) in enumerate(zip(f0, r0)):
+                    if isinstance(x0, (int, sym._SVOps)) and isinstance(x1, (int, sym._SVOps)):
+                        claims.append(Eq(f'cache-key[{i}:{kind},{j}]', x1, x0, fkey=f'repeat|{op}|cache-key'))
+                    elif x0 != x1:
+                        claims.append(Fail(f'cache-key[{i}:{kind},{j}]', f'cache key component {x1!r} != {x0!r}', fkey=f'repeat|{op}|cache-key'))
         diff = {k: after[k] - before[k] for k in after if after[k] != before[k]}
         if diff:
             claims.append(Fail(f'events-on-repeat[{i}:{kind}]', f'{op} keys {ka}/{kb if binary else ""}: repeat with {kind} coefficients caused {diff}',
@@ -263,6 +279,29 @@ def run_case(desc, V):
     claims.append(Eq('history-completed', 1, 1))
     claims.append(Note('nontrivial', 'a history of repeats was executed and observed'))
     return claims
+
+
+class _SpyDict(dict):
+    """records the keys the operator cache is asked for (observation from outside /repo)."""
+    def __init__(self, d):
+        super().__init__(d)
+        self.looked_up = []
+
+    def __contains__(self, k):
+        self.looked_up.append(k)
+        return super().__contains__(k)
+
+
+def _flat(k):
+    out = []
+    stack = [k]
+    while stack:
+        x = stack.pop()
+        if isinstance(x, (tuple, list)):
+            stack.extend(reversed(x))
+        else:
+            out.append(x)
+    return out
 
 
 def _twice_claims(alg, op):
